@@ -206,6 +206,14 @@ impl<'a> G<'a> {
         let rel = *self.rng.pick(&[0u64, 16, 1000]);
         let (preg, lreg) = (self.procs[p].reg.clone(), self.libs[l].clone());
         self.push(format!("map {preg} {lreg} {start} {} {rel}", start + len));
+        // remove_lib_mapping / clear_process_lib_mappings: at a start address that is (usually) mapped, so that a
+        // later absolute-address frame falls into the hole and the removed library may stay unused
+        if self.rng.chance(1, 4) {
+            let s = if self.rng.chance(3, 4) { start } else { *self.rng.pick(&[16u64, 32, 48, 64, 100, 17]) };
+            self.push(format!("unmap {preg} {s}"));
+        } else if self.rng.chance(1, 12) {
+            self.push(format!("clearmaps {preg}"));
+        }
     }
     fn add_symtab(&mut self) {
         let l = self.a_lib();
@@ -880,6 +888,33 @@ pub fn fixed_cases(_tier: Tier) -> Vec<Case> {
             "stack k1 t1 f1 -",
             "mstack t1 m2 k1",
             "mstack t1 m4 k1",
+            "sample t1 1 k1 0",
+        ],
+    ));
+    // remove_lib_mapping / clear_process_lib_mappings between absolute-address frames: the same address resolves
+    // to the library, then to nothing, then (after a new mapping) to another library; `libbar` is mapped and
+    // unmapped without ever being used
+    v.push(case(
+        "unmap-between-frames",
+        &[
+            &format!("process p1 1 0 {a}"),
+            "thread t1 p1 1 0 1",
+            &format!("lib l1 {}", hx("libfoo")),
+            &format!("lib l2 {}", hx("libbar")),
+            &format!("lib l3 {}", hx("x/a")),
+            "map p1 l1 16 48 0",
+            "map p1 l2 64 96 0",
+            "faddr f1 t1 ip 20 o 0",
+            "unmap p1 64",
+            "unmap p1 16",
+            "faddr f2 t1 ip 20 o 0",
+            "faddr f3 t1 ip 70 o 0",
+            "map p1 l3 16 48 8",
+            "faddr f4 t1 ip 20 o 0",
+            "clearmaps p1",
+            "faddr f5 t1 ra 21 o 0",
+            "unmap p1 16",
+            "stackframes k1 t1 f1 f2 f3 f4 f5",
             "sample t1 1 k1 0",
         ],
     ));
